@@ -156,7 +156,7 @@ class Sched:
         self.scenario, self.quick, self.thorough, self.exh = scenario, quick, thorough, exhaustive_limit
         self.name = label or ("sched-" + scenario)
     def _run(self, binp, args):
-        rc, out = sh([binp, "-scenario", self.scenario] + args, env=GOENV, timeout=7200)
+        rc, out = sh([binp, "-scenario", self.scenario] + (["-only", self.only] if self.only else []) + args, env=GOENV, timeout=7200)
         lines = []
         for l in out.splitlines():
             l = l.strip()
